@@ -586,6 +586,9 @@ func runC14(c *Ctx) {
 	ruleNoReentrantLock(c, m, "R14.i")
 	ruleReplyBufferLocal(c, "R14.j")
 	ruleNoAliasedSnapshots(c, "R14.k")
+	// an executor closure is registered once and runs on every connection's goroutine: a
+	// variable of the registering function it writes is shared, unsynchronised state
+	ruleNoSharedCapture(c, "R14.l")
 }
 
 // ruleNoLockAcrossBlocking: no mutex is held while the goroutine blocks on the transport.
@@ -619,7 +622,9 @@ func runC15(c *Ctx) {
 	ruleStopSweep(c, "R15.c")
 	ruleJoin(c, "R15.d")
 	ruleAcceptLoopEndsWithListener(c, "R15.f")
+	ruleStopClosesWhatIsOpen(c, "R15.g")
 	ruleRegistryBracket(c, "R15.e")
+	ruleConnKeyUnique(c, "R15.e")
 	c.assume("ports are re-bindable once their listener is closed (kernel); the application does not call lifecycle methods concurrently with each other")
 }
 
@@ -1036,4 +1041,60 @@ func ruleAcceptLoopEndsWithListener(c *Ctx, rid string) {
 	}
 	c.count("accept-loops-checked", n)
 	c.floor("accept-loops-checked", 1)
+}
+
+// ruleStopClosesWhatIsOpen: Stop must close the listeners that are open, whatever the
+// configuration says by then (a client can change it with CONFIG SET between Start and Stop).
+// Wherever the framework closes one of the server's listener fields, the only conditions on the
+// way to that Close may be tests of the listener field itself and of earlier Close errors.
+func ruleStopClosesWhatIsOpen(c *Ctx, rid string) {
+	c.rule(rid, "every Close of a listener field of redis.Server is guarded by nothing but nil tests of listener fields and tests of Close errors: in particular not by the current configuration (IsPortEnabled, ConfigPort, ...)")
+	n := 0
+	for _, fn := range c.P.RepoFuncs(pkgRedis) {
+		if !inFramework(fn) {
+			continue
+		}
+		allInstrs(fn, func(ins ssa.Instruction) {
+			cc := callCommon(ins)
+			if cc == nil || !strings.HasSuffix(calleeName(cc), "Listener).Close") {
+				return
+			}
+			recv := cc.Value
+			if !cc.IsInvoke() && len(cc.Args) > 0 {
+				recv = cc.Args[0]
+			}
+			owner, f, _, ok := fieldOf(recv)
+			if !ok || owner != "redis.Server" {
+				return
+			}
+			n++
+			key := fmt.Sprintf("%s/close:%s", fnName(fn), f)
+			bad := ""
+			for _, at := range factsAt(ins.Block()) {
+				switch at.Kind {
+				case "nil":
+					if _, f2, _, ok := fieldOf(at.X); ok && strings.Contains(strings.ToLower(f2), "listener") {
+						continue
+					}
+					if isErrorType(at.X.Type()) {
+						continue
+					}
+					bad = "a nil test of something other than a listener or an error"
+				case "call":
+					bad = "the result of " + calleeName(at.Call.Common())
+				case "val":
+					if _, isC := at.X.(*ssa.Call); isC {
+						bad = "the result of a call (" + at.X.String() + ")"
+					} else {
+						bad = "a boolean that is not a test of the listener"
+					}
+				case "eq", "lt", "le":
+					bad = "a comparison of values other than the listener"
+				}
+			}
+			c.check(bad == "", rid, key, c.P.instrPos(ins), "closed whenever it is open", "whether the open listener is closed depends on "+bad+": a listener opened by Start can survive Stop, keep accepting connections and keep its port")
+		})
+	}
+	c.count("listener-close-sites", n)
+	c.floor("listener-close-sites", 2)
 }
